@@ -182,7 +182,7 @@ type parker struct {
 	mu     sync.Mutex
 	points map[int]bool
 	ctl    map[int64]*parked // goroutine id -> control block
-	anyCtl *parked // when set, goroutines the harness did not start (maintenance, ticker) park here
+	anyCtl *parked           // when set, goroutines the harness did not start (maintenance, ticker) park here
 }
 
 // parkAnyone makes every unregistered goroutine that reaches a point park on the returned control block.
